@@ -34,7 +34,7 @@ theorem Distinct.sublist {l l' : List Commit} (h : Distinct l) (hs : l'.Sublist 
 theorem distinct_add {pool : Pool} {c : Commit} (h : Distinct pool.all) (hn : pool.has c = false) :
     Distinct (pool.add c).all := by
   unfold Distinct
-  rw [pool_add_all]
+  rw [pool_add_all hn]
   refine List.pairwise_append.mpr ⟨h, List.pairwise_singleton _ _, ?_⟩
   intro a ha b hb hh
   rw [List.mem_singleton.mp hb] at hh
